@@ -320,7 +320,8 @@ func TestC14(t *testing.T) {
 	r.Set("entry_points_checked_while_halted", ms)
 	r.Set("methods_excluded", facadeExclude)
 	c14Driver(r)
-	finish(t, r, r.N(20, 40), "bridge/*", "l1info/*", "driver/halted/does-not-advance", "driver/cleared-by-removing-reorg/converged")
+	c14Concurrent(r)
+	finish(t, r, r.N(20, 40), "bridge/*", "l1info/*", "driver/halted/does-not-advance", "driver/cleared-by-removing-reorg/converged", "concurrent/bridge/*", "concurrent/l1info/*")
 }
 
 var _ = context.Background
